@@ -18,6 +18,19 @@ from .alg import T, num, var, op
 KINDS = ("CARTESIAN", "CYLINDRICAL", "SPHERICAL")
 
 
+def term_has(t, names: set) -> bool:
+    """does the term depend on one of the variables? (undefined functions depend on all their coordinates)"""
+    if isinstance(t, int):
+        return False
+    if t.op == "var":
+        return t.val in names
+    if t.op == "fun":
+        return bool(set(t.val[1]) & names)
+    if t.op == "num":
+        return False
+    return any(term_has(a, names) for a in t.args)
+
+
 @dataclass(frozen=True)
 class Sys:
     ident: str  # identity of the CoordinateSystem object
@@ -365,8 +378,20 @@ class PyReader:
             if not isinstance(comps, list) or not isinstance(sysv, Sys):
                 self.fail(n, "Vector(...) arguments")
             return VVal([self.scalar(c, n) for c in comps], sysv)
-        if name in ("sqrt", "sin", "cos") and len(args) == 1:
+        if name in ("sqrt", "sin", "cos", "tan") and len(args) == 1:
             return op(name, self.scalar(args[0], n))
+        if name in ("any", "all") and len(args) == 1 and isinstance(args[0], list) and all(isinstance(x, bool) for x in args[0]):
+            return any(args[0]) if name == "any" else all(args[0])
+        if isinstance(n.func, ast.Attribute) and n.func.attr == "has":
+            base = self.ev(n.func.value, env, fns)
+            if isinstance(base, (T, int)):
+                names = set()
+                for a in args:
+                    if isinstance(a, T) and a.op == "var":
+                        names.add(a.val)
+                    else:
+                        self.fail(n, ".has() of a non-variable")
+                return term_has(base, names)
         if name == "diff" and len(args) >= 2:
             return op("diff", self.scalar(args[0], n), *[self.scalar(a, n) for a in args[1:]])
         if name in fns or name in self.functions:
